@@ -96,6 +96,8 @@ def check_byte_api(ctx):
     ctx.floor("R-2", "TaggedCborSerializable impls", n_tser, 6)
 
     # ---- R-3 defaults are the compositions -------------------------------------
+    # (net-effect view: a default that delegates to another, un-overridden default of the same trait is judged as one function)
+    prog = prog.view("all")
     fs = prog.fn(SER + "::from_slice")
     pv = Prov(fs)
     outs = outcomes(fs, pv)
@@ -138,9 +140,11 @@ def check(ctx):
     # ---- who may call read_to_value ------------------------------------------
     callers = sorted({f.key for f in prog.real_fns() for bb, t in f.calls() if callee_path(t) == READ})
     allowed = {SER + "::from_slice", TSER + "::from_tagged_slice", "header::ProtectedHeader::from_cbor_bstr_depth"}
-    ctx.ob("R-1", "callers-of-read_to_value", set(callers) <= allowed and (SER + "::from_slice") in callers,
-           "read_to_value is called only by the trait defaults and the protected-header path",
-           detail={"callers": callers})
+    # (a new provided method of the two traits that parses through read_to_value inherits its one-item discipline)
+    extra = [k for k in callers if k not in allowed and prog.fn(k).trait_default_of not in (SER, TSER)]
+    ctx.ob("R-1", "callers-of-read_to_value", not extra and (SER + "::from_slice") in callers,
+           "read_to_value is called only by provided methods of the serialisation traits and the protected-header path",
+           detail={"callers": callers, "unexpected": extra})
 
     check_byte_api(ctx)
     from rules import extractors as _ex
